@@ -127,7 +127,8 @@ pub open spec fn record_ok(r: &Record) -> bool {
 }
 // `h` is record `r` scored against the query: the record's own id / rating / title, and a match list for that title
 pub open spec fn scored(h: Hit, r: &Record, query: &TextRef) -> bool {
-    tm_some(&h.title, query, (h.rmatches, h.qmatches)) && (query.words@.len() == 0 ==> h.rmatches@.len() == 0) && slots_ok(h) && h.id == r.id && h.rating == r.rating
+    tm_some(&h.title, query, (h.rmatches, h.qmatches)) && tm_first(&h.title, query, (h.rmatches, h.qmatches)) && tm_fin(query, (h.rmatches, h.qmatches))
+    && (query.words@.len() == 0 ==> h.rmatches@.len() == 0) && slots_ok(h) && h.id == r.id && h.rating == r.rating
     && h.title.words@ == r.title.words@ && h.title.source@ == r.title.source@ && h.title.chars@ == r.title.chars@ && h.title.classes@ == r.title.classes@
     && matches_for_text(h.rmatches@, &h.title) && matches_ok(h.rmatches@) && matches_ok(h.qmatches@)
 }
@@ -290,6 +291,7 @@ proof fn lemma_search_final(st: &Store, query: &TextRef, ixs: Seq<usize>, hs: Se
         query.words@.len() > 0 ==> forall|k: int| 0 <= k < out.len() ==> result_shares(#[trigger] out[k], st.records@, query),
         st.records@.len() <= st.limit && query.words@.len() == 1 ==> forall|j: int, w: int| 0 <= j < st.records@.len() && #[trigger] rec_prefix(&st.records@[j], query, w) ==> exists|k: int| 0 <= k < out.len() && (#[trigger] out[k]).id == st.records@[j].id,
         st.records@.len() <= st.limit && query.words@.len() == 1 ==> forall|j: int, w: int| 0 <= j < st.records@.len() && #[trigger] rec_equal(&st.records@[j], query, w) ==> exists|k: int| 0 <= k < out.len() && (#[trigger] out[k]).id == st.records@[j].id,
+        st.records@.len() <= st.limit && query.words@.len() >= 2 && query.words@[0].fin ==> forall|j: int, w: int| 0 <= j < st.records@.len() && #[trigger] rec_equal(&st.records@[j], query, w) ==> exists|k: int| 0 <= k < out.len() && (#[trigger] out[k]).id == st.records@[j].id,
         st.records@.len() <= st.limit && query.words@.len() == 1 ==> forall|j: int, w: int, p: int| 0 <= j < st.records@.len() && #[trigger] rec_edit1(&st.records@[j], query, w, p) ==> exists|k: int| 0 <= k < out.len() && (#[trigger] out[k]).id == st.records@[j].id,
         query.words@.len() == 0 ==> out.len() == (if st.records@.len() < st.limit { st.records@.len() } else { st.limit as nat }),
 {
@@ -315,6 +317,7 @@ proof fn lemma_search_final(st: &Store, query: &TextRef, ixs: Seq<usize>, hs: Se
     lemma_search_c03(st, query, ixs, hs, pos, out);
     lemma_search_c04(st, query, ixs, hs, pos, out);
     lemma_search_c13(st, query, ixs, hs, pos, out);
+    lemma_search_c13w(st, query, ixs, hs, pos, out);
 }
 proof fn lemma_highlightable(h: Hit, r: &Record, query: &TextRef)
     requires scored(h, r, query), record_ok(r)
@@ -390,6 +393,31 @@ proof fn lemma_search_c03(st: &Store, query: &TextRef, ixs: Seq<usize>, hs: Seq<
     }
 }
 // shared core of the two recall lemmas: a record whose title shares a gram with the one-word query and whose hit has a match is returned
+// recall, general form: a record that shares a gram with the query and whose scored hit passes the filter is returned when everything fits
+proof fn lemma_search_recall_hm(st: &Store, query: &TextRef, ixs: Seq<usize>, hs: Seq<Hit>, pos: Seq<int>, out: Seq<SearchResult>, j: int)
+    requires st.srch_ok(), text_wf(query), cand_src(ixs, st, query), trace_ok(ixs, hs, st.records@, query),
+        sel_ok(out, hs, pos, query, st.dividers.0@, st.dividers.1@),
+        hs.filter(passes(query)).len() <= st.limit ==> forall|i: int| 0 <= i < hs.len() && hm_spec(query, &#[trigger] hs[i]) ==> pos.contains(i),
+        st.records@.len() <= st.limit, query.words@.len() >= 1, 0 <= j < st.records@.len(),
+        common_gram(&st.records@[j], query),
+        forall|i: int| 0 <= i < hs.len() && ixs[i] == j as usize ==> hm_spec(query, &#[trigger] hs[i]),
+    ensures exists|k: int| 0 <= k < out.len() && (#[trigger] out[k]).id == st.records@[j].id,
+{
+    let recs = st.records@;
+    lemma_filter_len(hs, passes(query));
+    lemma_distinct_bounded(ixs, recs.len() as int);
+    let r = &recs[j];
+    let g = choose|g: [char; 3]| #[trigger] has_gram(r.title.words@, r.title.chars@, g@) && has_gram(query.words@, query.chars@, g@);
+    assert(posted(st.index.dict@, g, j));
+    assert(shares(st.index.dict@, query.words@, query.chars@, j));
+    assert(ixs.contains(j as usize));
+    let i = choose|i: int| 0 <= i < ixs.len() && ixs[i] == j as usize;
+    assert(scored(hs[i], &recs[j], query));
+    assert(hm_spec(query, &hs[i]));
+    assert(pos.contains(i));
+    let k = choose|k: int| 0 <= k < pos.len() && pos[k] == i;
+    assert(out[k].id == hs[i].id);
+}
 proof fn lemma_search_recall(st: &Store, query: &TextRef, ixs: Seq<usize>, hs: Seq<Hit>, pos: Seq<int>, out: Seq<SearchResult>, j: int)
     requires st.srch_ok(), text_wf(query), cand_src(ixs, st, query), trace_ok(ixs, hs, st.records@, query),
         sel_ok(out, hs, pos, query, st.dividers.0@, st.dividers.1@),
@@ -477,6 +505,51 @@ proof fn lemma_search_c13(st: &Store, query: &TextRef, ixs: Seq<usize>, hs: Seq<
         }
     }
 }
+// C13 for queries of several words (a whole title of two or more words; two complete title words in either order): the first query
+// word is complete and has the same characters as word w of the record's title.  Chain: G-prefix (the two words share a gram), index
+// content, candidate completeness, TM-some + TM-first (the first query word is matched), TM-fin (a lone match pair of a finished query
+// word is marked finished), the filter's single-short-partial-match rule (hm_spec), full coverage
+proof fn lemma_search_c13w(st: &Store, query: &TextRef, ixs: Seq<usize>, hs: Seq<Hit>, pos: Seq<int>, out: Seq<SearchResult>)
+    requires st.srch_ok(), text_wf(query), cand_src(ixs, st, query), trace_ok(ixs, hs, st.records@, query),
+        sel_ok(out, hs, pos, query, st.dividers.0@, st.dividers.1@),
+        hs.filter(passes(query)).len() <= st.limit ==> forall|i: int| 0 <= i < hs.len() && hm_spec(query, &#[trigger] hs[i]) ==> pos.contains(i),
+    ensures st.records@.len() <= st.limit && query.words@.len() >= 2 && query.words@[0].fin ==> forall|j: int, w: int| 0 <= j < st.records@.len() && #[trigger] rec_equal(&st.records@[j], query, w)
+                ==> exists|k: int| 0 <= k < out.len() && (#[trigger] out[k]).id == st.records@[j].id,
+{
+    let recs = st.records@;
+    if recs.len() <= st.limit && query.words@.len() >= 2 && query.words@[0].fin {
+        assert forall|j: int, w: int| 0 <= j < recs.len() && #[trigger] rec_equal(&recs[j], query, w) implies exists|k: int| 0 <= k < out.len() && (#[trigger] out[k]).id == recs[j].id by {
+            let r = &recs[j];
+            let qc = tchars(query, 0); let rc = word_chars(r.title.words@, r.title.chars@, w);
+            assert(query.words@[0].slice.0 < query.words@[0].slice.1);
+            assert(qc == word_chars(query.words@, query.chars@, 0));
+            assert(record_ok(r));
+            assert(qc.len() >= 1 && rc.len() >= 1 && qc[0] == rc[0]);
+            lemma_gram_prefix(qc, rc);
+            lemma_common_gram(query.words@, query.chars@, 0, r.title.words@, r.title.chars@, w);
+            assert forall|i: int| 0 <= i < hs.len() && ixs[i] == j as usize implies hm_spec(query, &#[trigger] hs[i]) by {
+                let h = hs[i];
+                assert(scored(h, &recs[j], query));
+                assert(tchars(&h.title, w) == rc);
+                assert(pair_equal(&h.title, query, w));
+                assert(pair_prefix(&h.title, query, w) || pair_equal(&h.title, query, w));
+                assert(exists|jj: int| #![trigger pair_prefix(&h.title, query, jj)] #![trigger pair_equal(&h.title, query, jj)] pair_prefix(&h.title, query, jj) || pair_equal(&h.title, query, jj));
+                assert(tm_some(&h.title, query, (h.rmatches, h.qmatches)));
+                assert(tm_first(&h.title, query, (h.rmatches, h.qmatches)));
+                assert(tm_fin(query, (h.rmatches, h.qmatches)));
+                assert(h.rmatches@.len() >= 1);
+                if h.rmatches@.len() == 1 && h.qmatches@.len() == 1 && !h.rmatches@[0].fin {
+                    // the only query-side match is the first word's (TM-first); it would have to be an unfinished word's (TM-fin)
+                    assert(first_matched(h.qmatches@));
+                    assert(unfin_match(query, h.qmatches@));
+                    assert(h.qmatches@[0].offset == 0);
+                    assert(false);
+                }
+            }
+            lemma_search_recall_hm(st, query, ixs, hs, pos, out, j);
+        }
+    }
+}
 proof fn lemma_shares_sym(a: Seq<char>, b: Seq<char>)
     requires shares_gram(a, b)
     ensures shares_gram(b, a)
@@ -546,6 +619,10 @@ impl Store {
                 ==> exists|k: int| 0 <= k < ret@.len() && (#[trigger] ret@[k]).id == self.records@[j].id, // [C03]
             // C13 (one-word case): likewise when the single query word has the same characters as a title word
             self.records@.len() <= self.limit && query.words@.len() == 1 ==> forall|j: int, w: int| 0 <= j < self.records@.len() && #[trigger] rec_equal(&self.records@[j], query, w)
+                ==> exists|k: int| 0 <= k < ret@.len() && (#[trigger] ret@[k]).id == self.records@[j].id, // [C13]
+            // C13 (queries of several words — a whole title of several words, or two complete title words in either order): likewise when
+            // the first query word is complete and has the same characters as a title word
+            self.records@.len() <= self.limit && query.words@.len() >= 2 && query.words@[0].fin ==> forall|j: int, w: int| 0 <= j < self.records@.len() && #[trigger] rec_equal(&self.records@[j], query, w)
                 ==> exists|k: int| 0 <= k < ret@.len() && (#[trigger] ret@[k]).id == self.records@[j].id, // [C13]
             // C04 (one typo, modulo the tokeniser): likewise when the single query word is one edit away from a title word of at least
             // five characters, three of them different
